@@ -15,6 +15,12 @@ from .flow import ASSIGN_OPS
 F = Fraction
 
 
+def _is_int_type(t):
+    t = t.replace('const ', '').replace('&', '').strip()
+    return t in ('int', 'unsigned int', 'unsigned', 'long', 'unsigned long', 'long long', 'unsigned long long', 'short',
+                 'unsigned short', 'char', 'unsigned char', 'signed char', 'bool', 'size_t', 'std::size_t')
+
+
 class Lin:
     __slots__ = ('c', 'k')
 
@@ -396,10 +402,10 @@ class Analyzer:
         out = []
         for a, s1 in self.ev(f, n['ch'][0], st):
             for b, s2 in self.ev(f, n['ch'][1], s1):
-                isint = 'int' in (n.get('t') or '') or 'long' in (n.get('t') or '')
+                isint = _is_int_type(n.get('t') or '')
                 if op in ASSIGN_OPS:
                     ln = f.nodes[f.strip(n['ch'][0])]
-                    isint = 'int' in ln.get('t', '') or 'long' in ln.get('t', '')
+                    isint = _is_int_type(ln.get('t', ''))
                 for v, s3 in self.arith(base, a, b, s2, isint):
                     if op in ASSIGN_OPS:
                         self.assign(f, n['ch'][0], v, s3)
@@ -574,8 +580,6 @@ class Analyzer:
                     if d.get('init', -1) >= 0:
                         for v, s in self.ev(f, d['init'], st):
                             s.env[d['d']] = v
-                            if isinstance(v, Lin) and ('int' in d['t'] or 'long' in d['t'] or 'unsigned' in d['t']):
-                                pass
                             nxt.append(s)
                     else:
                         st.env[d['d']] = UNK
